@@ -97,9 +97,12 @@ def check(ctx):
         "whether it is within its validity; the harness derives that description with rpki-rs's own validation",
         "exactly_once is proved for the proxy associated with signers that are associated with it (mutual association); "
         "nonces are fresh (uuid v4)",
-        "ta_numbers_increase is proved for histories without a forced manifest number at or below the signer's current "
-        "one and without signer (re-)association while a request is open or to a signer whose number is behind; the three "
-        "excluded operator actions are proved to decrease the number (model) and replayed on the code (known findings)",
+        "ta_numbers_increase is proved for histories in which the proxy is not re-associated (UpdateSigner) with a signer "
+        "whose manifest number is behind the published one (a signer initialised again with the same TA key and a too low "
+        "initial number: open finding F-C15-2, proved to decrease the number in the model and replayed on the code) and in "
+        "which the first association (AddSigner) happens while no signer request is open; forced manifest numbers and signer "
+        "updates at any time are inside the statement since the fixes 109701d8 / 764cd480 (the pinned tree's behaviour is "
+        "kept as counter-model Ta/Pinned.lean)",
         "child_details/open_requests/open_responses hash maps are modelled as maps keyed by (child, key); hash-map "
         "iteration order inside one signer request is not modelled (keys are distinct across children)",
         "revocation list expiry (remove_expired) and certificate validity times are not modelled",
@@ -120,14 +123,17 @@ MANIFEST = {
             "cross-wire, forge), concurrent children and several/re-initialised signers an inductive invariant gives, per "
             "child and key, #accepted answers = #handed over + #waiting and <= #requests stored (exactly once, removed on "
             "delivery, handed to the sender only); the published manifest/CRL number never decreases and strictly increases "
-            "at every accepted response, except under three operator actions for which the decrease is proved and replayed. "
+            "at every accepted response, except when the operator re-associates the proxy with a re-initialised signer whose number "
+            "is behind (decrease proved and replayed, open finding); two further ways to set the number back in the pinned tree "
+            "were repaired (fix commits) and are kept as counter-models. "
             "The model is tied to the code by replaying every stored proxy/signer command of seeded adversarial histories on "
             "the model in lock-step with an in-process krill and by evaluating the theorem predicates on the implementation's "
             "own events",
     "note": "Kernel-checked theorems are about the model; the tie is seeded differential execution (stream proto, profile "
-            "ta). Cryptography is symbolic; the message descriptions come from rpki-rs validation inside the harness. Three "
-            "recorded findings (F-C15-1..3): the TA manifest number can be set back by a low --ta-mft-number-override, by "
-            "`proxy signer update` with a re-initialised signer, and by a stale response accepted after a signer update.",
+            "ta). Cryptography is symbolic; the message descriptions come from rpki-rs validation inside the harness. Findings: "
+            "F-C15-1 (low --ta-mft-number-override, fixed 109701d8), F-C15-3 (stale response accepted after a signer update "
+            "made while the request was open, fixed 764cd480), F-C15-2 open (`proxy signer update` with a re-initialised "
+            "signer restarts the manifest number).",
     "technique": "Lean 4 proof (iff characterisations, inductive invariant over op histories with ghost counters, symbolic "
                  "Dolev-Yao network) + lock-step correspondence on the real aggregates + oracle on observed events",
 }
